@@ -420,3 +420,4 @@ def _more():
 
 
 UNITS = UNITS + _more()
+from props.c15_ext2 import UNITS as _U2; UNITS = UNITS + _U2
